@@ -71,6 +71,8 @@ type InvResult struct {
 	SimMS    int64
 	Ops      int
 	EndSimMS int64
+	// Orphans: target commands that were still running, not killed, when the process ended
+	Orphans []string
 }
 
 type wbuild struct {
@@ -94,9 +96,13 @@ type wbuild struct {
 	toggled    map[string]bool
 	force      []string
 	long       bool
-	fs         *faultState
-	focus      string
-	load       string
+	live       map[*simexec.Invocation]string
+	// remote mode: epoch of the result the remote namespace holds per key (non-hermetic targets)
+	remoteNH    map[string]string
+	remoteLossy bool
+	fs          *faultState
+	focus       string
+	load        string
 	// crash sweep: kill invocation number sweepInv at its sweepOp-th file-system operation
 	sweepInv, sweepOp int
 	opsPerInv         []int
@@ -275,7 +281,15 @@ func diskListing(ws string, s *Spec) Listing {
 func writeListing(ws string, s *Spec, l Listing, omitFirst bool) {
 	for i, o := range s.Outs {
 		abs := filepath.Join(ws, s.Pkg, o.Path)
-		os.RemoveAll(abs)
+		keep := false
+		if s.InPlace && o.Kind != "dir" && !(omitFirst && i == 0) {
+			if st, err := os.Lstat(abs); err == nil && st.Mode().IsRegular() {
+				keep = true // rewritten in place below (same inode)
+			}
+		}
+		if !keep {
+			os.RemoveAll(abs)
+		}
 		if omitFirst && i == 0 {
 			continue
 		}
@@ -381,6 +395,18 @@ func (w *wbuild) handler(inv *simexec.Invocation) (int, error) {
 		return ev.Exit, nil
 	}
 	// ---- target command
+	inv.TrapTerm = s.TrapTerm
+	w.mu.Lock()
+	if w.live == nil {
+		w.live = map[*simexec.Invocation]string{}
+	}
+	w.live[inv] = s.Label()
+	w.mu.Unlock()
+	defer func() {
+		w.mu.Lock()
+		delete(w.live, inv)
+		w.mu.Unlock()
+	}()
 	ev := ExecEvent{Inv: invN, Label: s.Label(), Kind: "cmd", Start: inv.StartStep, Machine: m.Name, StartMS: inv.StartSim.Milliseconds()}
 	w.mu.Lock()
 	w.running++
@@ -550,6 +576,13 @@ func (w *wbuild) invoke(m *Machine, req BuildReq, opts InvOpts, arm func(p *simr
 	}
 	w.mu.Lock()
 	res.Events = append([]ExecEvent(nil), w.events[first:]...)
+	for inv, l := range w.live {
+		if inv.Ctx.Err() == nil {
+			res.Orphans = append(res.Orphans, l)
+		}
+	}
+	sort.Strings(res.Orphans)
+	w.live = nil
 	w.mu.Unlock()
 	return res
 }
